@@ -287,7 +287,16 @@ func propC10(w *World, r *Report) {
 	if okErr {
 		// when the call sits in a stage function, that function's error must abort its caller as well
 		stage := cleanupCall.Parent()
-		if cs := w.callersOf(stage); len(cs) == 1 && w.callersOf(hciD.setup)[0] != stage {
+		onChain := map[*ssa.Function]bool{}
+		for t, i := hciD.setup, 0; i < 5; i++ {
+			cs := w.callersOf(t)
+			if len(cs) != 1 {
+				break
+			}
+			onChain[cs[0]] = true
+			t = cs[0]
+		}
+		if cs := w.callersOf(stage); len(cs) == 1 && !onChain[stage] {
 			if !returnsErrorOf(cs[0], stage) {
 				okErr = false
 			}
